@@ -55,7 +55,7 @@ RULE = (
     "get_rows_sizes + render on a reduced grid; the Columns / Pile render grids again with the options written in "
     "every other documented spelling (constructor tuples with 'given'/'pack'/'weight' strings, WHSettings members, "
     "legacy 'fixed'/'flow'/bare widget; .contents entries as plain string tuples, WHSettings tuples, or built by "
-    ".options() from a string or a member) for all children and in two per-child mixtures; "
+    ".options() from a string or a member) for all children and in a rotating per-child mixture; "
     "calculate_left_right_padding and calculate_top_bottom_filler for "
     "every align kind (left/center/right, relative 0..100 step 5), given sizes 1..12, relative 0..100 step 5 with "
     "min None/1/3/6, clip, margins 0..5 x 0..5, sizes 1..30; Padding / Filler / Overlay rendered with a probe child "
@@ -1215,13 +1215,16 @@ def pile_cases(option_sets, maxrow=(1, 24), render=False, zero=False):
 
 def spelled(cases, key, uniform_upto=99):
     """every case of the stream under every other spelling: each of the seven non-default spellings for all
-    children (lists of at most `uniform_upto` children), and (two children or more) two mixed assignments -
-    child i spelled SPELLS[(i + r) % 8] for r = 0 and r = 4, so that neighbouring children are spelled differently"""
+    children (lists of at most `uniform_upto` children), and (two children or more) one mixed assignment -
+    child i spelled SPELLS[(i + r) % 8], r advancing by one with every such case, so that neighbouring children
+    are spelled differently and, over the stream, every spelling is met at every position"""
+    r = 0
     for case in cases:
         n = len(case[key])
         variants = list(SPELLS[1:]) if n <= uniform_upto else []
         if n > 1:
-            variants += [[SPELLS[(i + r) % len(SPELLS)] for i in range(n)] for r in (0, 4)]
+            variants.append([SPELLS[(i + r) % len(SPELLS)] for i in range(n)])
+            r += 1
         for sp in variants:
             c = dict(case)
             c["spell"] = sp
@@ -1484,10 +1487,10 @@ def shard(ctx):
                                      maxrow=(1, 14), render=True), "items"),
           _pile_nontrivial, _pile_classes,
           "Pile get_item_rows + get_rows_sizes + render, small (thorough: reduced) option set, every spelling of the "
-          "options + 2 mixed")
+          "options + 1 mixed")
     sweep("columns", columns_spelled_cases(ctx.scale(3, 4), ctx.scale(2, 3)), _columns_nontrivial, _columns_classes,
           "Columns column_widths + get_column_sizes + render, small option set, dividechars 1, min_width 2, every "
-          "spelling of the options (quick <=2, thorough <=3 children) + 2 mixed (all lengths)")
+          "spelling of the options (quick <=2, thorough <=3 children) + 1 mixed (all lengths)")
     sweep("grid", grid_cases(ctx.scale(5, 7)), _grid_nontrivial, _grid_classes, "GridFlow cells<=7, cell width 1..6, maxcol 1..30")
 
     given("columns", _columns_case(), 300, 8000, _columns_nontrivial, _columns_classes)
